@@ -26,10 +26,11 @@ IDS = [1, 0, 2, 'x', '', 10**20, -1]
 def make_patch(p: Dict[str, Any], serial: int) -> Dict[str, Any]:
     """kwargs for mocker.add / replace"""
     k = p['kind']
+    own_id = {'id': p['patch_id']} if 'patch_id' in p else {}     # a patch may carry an id of its own; the reply still carries the REQUEST id
     if k == 'result':
-        return {'result': p['value']}
+        return {'result': p['value'], **own_id}
     if k == 'error':
-        return {'error': pjrpc.exc.JsonRpcError(code=p['code'], message=p['message'], data=p.get('data', UNSET) if 'data' in p else UNSET)}
+        return {'error': pjrpc.exc.JsonRpcError(code=p['code'], message=p['message'], data=p.get('data', UNSET) if 'data' in p else UNSET), **own_id}
     if k == 'callback-raises':
         def boom(*a: Any, _s: int = serial, **kw: Any) -> Any:
             raise CallbackBoom(_s)
@@ -48,7 +49,7 @@ class C20(Check):
     thorough_examples = 10000
     chunk = 600
     rule = (
-        "cases: operation/call histories of up to 9 steps over 2 endpoints x 3 methods (one never patched): add(result | error | callback | callback that raises, "
+        "cases: operation/call histories of up to 9 steps over 2 endpoints x 3 methods (one never patched): add(result | error | callback | callback that raises, patches carrying an id of their own, "
         "once on/off), replace(existing index), remove(endpoint, method) / remove(endpoint) (existing only), reset, call (positional / named / "
         "absent params, ids incl. 0 and '' via hand-built request texts), batch call (1..3 elements incl. unpatched methods), notifications to endpoints without patches, plus structured scenarios (2..3 patches on one pair, a replace at a chosen index, then a full rotation of calls); passthrough "
         "on/off; sync and async targets (harness client classes patched through PjRpcMocker(target=...); the shipped PjRpcRequestsMocker "
@@ -67,7 +68,7 @@ class C20(Check):
     trusted_base = ['deque model in checks/c20.py']
     required_classes = ['op/add', 'op/replace', 'op/remove-method', 'op/remove-endpoint', 'op/reset', 'op/call', 'op/batch', 'patch/result',
                         'patch/error', 'patch/callback', 'once', 'round-robin>=2', 'passthrough/on', 'passthrough/off', 'target/sync',
-                        'target/async', 'target/requests', 'unpatched-method', 'unpatched-endpoint', 'id/0', 'callback-raised', 'op/notify-unpatched-endpoint']
+                        'target/async', 'target/requests', 'unpatched-method', 'unpatched-endpoint', 'id/0', 'callback-raised', 'op/notify-unpatched-endpoint', 'patch/own-id']
 
     def strategy(self, tier: str):
         s_ep = st.integers(0, 1)
@@ -77,6 +78,8 @@ class C20(Check):
             st.builds(lambda c, m, d: {'kind': 'error', 'code': c, 'message': m, **d}, st.sampled_from([1, 0, -32000, 2001]), st.sampled_from(['m', '']),
                       st.sampled_from([{}, {'data': None}, {'data': {'x': 1}}])),
             st.just({'kind': 'callback'}), st.just({'kind': 'callback'}), st.just({'kind': 'callback-raises'}),
+            st.builds(lambda v, i: {'kind': 'result', 'value': v, 'patch_id': i}, st.sampled_from([None, 'r', 0]), st.sampled_from([77, 'patch-id', 0])),
+            st.builds(lambda i: {'kind': 'error', 'code': 5, 'message': 'm', 'patch_id': i}, st.sampled_from([77, 'patch-id'])),
         )
         s_params = st.sampled_from(PARAMS)
         s_id = st.sampled_from(IDS)
@@ -204,6 +207,8 @@ class C20(Check):
                     mocker.add(ep, m, once=op[4], **make_patch(op[3], serial[0]))
                     model.setdefault(ep, {}).setdefault(m, []).append({'patch': op[3], 'once': op[4], 'serial': serial[0]})
                     classes.update({'op/add', f"patch/{op[3]['kind']}"})
+                    if 'patch_id' in op[3]:
+                        classes.add('patch/own-id')
                     if len(model[ep][m]) >= 2:
                         classes.add('round-robin>=2')
                 elif k == 'replace':
